@@ -64,8 +64,13 @@ func vfSnapshot(root string, withMtime bool) string {
 			t, _ := os.Readlink(p)
 			l += " -> " + t
 		} else if fi.Mode().IsRegular() {
-			b, _ := os.ReadFile(p)
-			l += fmt.Sprintf(" %x", b)
+			if fi.Size() > 1<<20 {
+				// huge sparse files (a write or truncate at an absurd offset): do not read them in
+				l += " <large>"
+			} else {
+				b, _ := os.ReadFile(p)
+				l += fmt.Sprintf(" %x", b)
+			}
 		}
 		if fi.IsDir() {
 			l = fmt.Sprintf("%s %v", rel, fi.Mode())
@@ -319,15 +324,19 @@ func (w *vfWireClient) sendNext() {
 	}
 	w.reqs = append(w.reqs, q)
 	w.sent++
-	raw := w.rawMode[i]
 	w.mu.Unlock()
-	b := q.encode()
-	if raw != nil {
-		b = raw
-	}
-	w.sim.tracef("wire client sends %v (%d bytes)", q, len(b))
 	if w.onSend != nil {
 		w.onSend(i, q)
+	}
+	b := q.encode()
+	w.mu.Lock()
+	raw, isRaw := w.rawMode[i]
+	w.mu.Unlock()
+	if isRaw {
+		b = raw
+		w.sim.tracef("wire client sends raw bytes for %v: % x", q, b)
+	} else {
+		w.sim.tracef("wire client sends %v (%d bytes)", q, len(b))
 	}
 	w.c2s.Write(b)
 }
